@@ -22,3 +22,22 @@ pub fn infinity_writer<P: ark_ec::short_weierstrass::SWCurveConfig>(p: &mut ark_
 pub fn lazy_writer(src: &[(usize, u64)], dst: &mut [u64]) {
     src.iter().map(|&(i, v)| dst[i] = v).next_back();
 }
+
+/// R-AFFLIFT (C03): a projective point built from the raw coordinates of an affine value without a look at its
+/// infinity flag.
+pub fn affine_lifter<P: ark_ec::short_weierstrass::SWCurveConfig>(
+    a: &ark_ec::short_weierstrass::Affine<P>,
+) -> ark_ec::short_weierstrass::Projective<P> {
+    ark_ec::short_weierstrass::Projective::new_unchecked(a.x, a.y, <P::BaseField as ark_ff::Field>::ONE)
+}
+
+/// R-AFFLIFT twin that tests the flag first (must NOT match).
+pub fn affine_lifter_checked<P: ark_ec::short_weierstrass::SWCurveConfig>(
+    a: &ark_ec::short_weierstrass::Affine<P>,
+) -> ark_ec::short_weierstrass::Projective<P> {
+    if a.infinity {
+        <ark_ec::short_weierstrass::Projective<P> as ark_std::Zero>::zero()
+    } else {
+        ark_ec::short_weierstrass::Projective::new_unchecked(a.x, a.y, <P::BaseField as ark_ff::Field>::ONE)
+    }
+}
